@@ -439,6 +439,12 @@ def run_check(mod, tier="quick", seed=0, replay=None):
         "wall_s": round(time.time() - t0, 2),
         "violations": len(new_viol),
     }
+    extra = getattr(mod, "evidence_extra", None)
+    if extra is not None:
+        try:
+            ev["coverage"].update(extra())
+        except Exception as e:
+            ev["coverage"]["evidence_extra_error"] = str(e)
     write_evidence(pid, ev)
 
     rc = 0
